@@ -89,6 +89,8 @@ Variable cd hd : codecs.
 (** * Server side *)
 
 Definition empty_elem (n : xname) : xtree := Elem n [] [].
+(** a struct with one [,chardata] field: a text token unless the text is empty *)
+Definition simple_elem (n : xname) (s : string) : xtree := Elem n [] (text_nodes s).
 
 (** Response.EncodeProp: append to the first propstat with that code, else a new one. *)
 Fixpoint encode_prop (pss : list propstat) (code : Z) (v : xtree) : list propstat :=
@@ -140,14 +142,14 @@ Definition resourcetype_value (names : list xname) : xtree := Elem n_resourcetyp
 (** propFindCalendarObject / propFindAddressObject: the property map. *)
 Definition object_props (fl : flavor) (principal : string) (o : obj) : list (xname * pres) :=
   [ (n_cup, POk (cup_value principal));
-    (n_getcontenttype, POk (Elem n_getcontenttype [] [Text (mime_of fl)]));
+    (n_getcontenttype, POk (simple_elem n_getcontenttype (mime_of fl)));
     (data_name fl, match pay_enc cd fl (o_data o) with
-                   | Some b => POk (Elem (data_name fl) [] (text_nodes b))
+                   | Some b => POk (simple_elem (data_name fl) b)
                    | None => PErr 500
                    end) ]
-  ++ (if 0 <? o_len o then [(n_getcontentlength, POk (Elem n_getcontentlength [] [Text (dec_of_Z (o_len o))]))] else [])
-  ++ (if is_zero_time o then [] else [(n_getlastmodified, POk (Elem n_getlastmodified [] [Text (time_enc cd (o_sec o))]))])
-  ++ (if str_empty (o_etag o) then [] else [(n_getetag, POk (Elem n_getetag [] [Text (etag_enc cd (o_etag o))]))]).
+  ++ (if 0 <? o_len o then [(n_getcontentlength, POk (simple_elem n_getcontentlength (dec_of_Z (o_len o))))] else [])
+  ++ (if is_zero_time o then [] else [(n_getlastmodified, POk (simple_elem n_getlastmodified (time_enc cd (o_sec o))))])
+  ++ (if str_empty (o_etag o) then [] else [(n_getetag, POk (simple_elem n_getetag (etag_enc cd (o_etag o))))]).
 
 Definition prop_find_object (fl : flavor) (principal : string) (req : list xname) (o : obj) : response :=
   new_prop_find_response (o_path o) req (object_props fl principal o).
@@ -157,11 +159,11 @@ Definition typed_elem (n : xname) (ct ver : string) : xtree :=
 
 (** propFindCalendar *)
 Definition calendar_props (principal : string) (c : coll) : list (xname * pres) :=
-  (if str_empty (c_name c) then [] else [(n_displayname, POk (Elem n_displayname [] [Text (c_name c)]))])
-  ++ (if 0 <? c_max c then [(maxsize_name Cal, POk (Elem (maxsize_name Cal) [] [Text (dec_of_Z (c_max c))]))] else [])
+  (if str_empty (c_name c) then [] else [(n_displayname, POk (simple_elem n_displayname (c_name c)))])
+  ++ (if 0 <? c_max c then [(maxsize_name Cal, POk (simple_elem (maxsize_name Cal) (dec_of_Z (c_max c))))] else [])
   ++ [ (n_cup, POk (cup_value principal));
        (n_resourcetype, POk (resourcetype_value [n_collection; coll_type_name Cal]));
-       (desc_name Cal, POk (Elem (desc_name Cal) [] (text_nodes (c_desc c))));
+       (desc_name Cal, POk (simple_elem (desc_name Cal) (c_desc c)));
        (n_caldata_types, POk (Elem n_caldata_types [] [typed_elem (data_name Cal) "text/calendar" "2.0"]));
        (n_compset, POk (Elem n_compset []
                           (map (fun name => Elem n_comp [(noattr "name", name)] [])
@@ -174,9 +176,9 @@ Definition address_book_props (principal : string) (c : coll) : list (xname * pr
     (n_adata_types, POk (Elem n_adata_types []
                            [typed_elem (ns_of Card, "address-data-type"%string) "text/vcard" "3.0";
                             typed_elem (ns_of Card, "address-data-type"%string) "text/vcard" "4.0"])) ]
-  ++ (if str_empty (c_name c) then [] else [(n_displayname, POk (Elem n_displayname [] [Text (c_name c)]))])
-  ++ (if str_empty (c_desc c) then [] else [(desc_name Card, POk (Elem (desc_name Card) [] [Text (c_desc c)]))])
-  ++ (if 0 <? c_max c then [(maxsize_name Card, POk (Elem (maxsize_name Card) [] [Text (dec_of_Z (c_max c))]))] else []).
+  ++ (if str_empty (c_name c) then [] else [(n_displayname, POk (simple_elem n_displayname (c_name c)))])
+  ++ (if str_empty (c_desc c) then [] else [(desc_name Card, POk (simple_elem (desc_name Card) (c_desc c)))])
+  ++ (if 0 <? c_max c then [(maxsize_name Card, POk (simple_elem (maxsize_name Card) (dec_of_Z (c_max c))))] else []).
 
 Definition collection_props (fl : flavor) : string -> coll -> list (xname * pres) :=
   match fl with Cal => calendar_props | Card => address_book_props end.
